@@ -375,9 +375,8 @@ func c03NewNode(net *c03Net, me int, cfg *configs.ConsensusConfig) *c03Node {
 	logger := log.New()
 	be := cstate.NewBlockExecutor(nd.store, logger, c03Ev{}, nd.bo)
 	nd.probe = cstate.NewBlockExecutor(nd.store, logger, c03Ev{}, nd.bo)
-	// NewTimeoutTicker() calls stopTimer() before a logger is set; when the zero-duration timer has
-	// already fired and its channel is empty, stopTimer logs through the nil logger and panics
-	// (rare, timing dependent, unrelated to C03): retry.
+	// (before fix 23dc084 NewTimeoutTicker() could panic through its nil logger when the zero-duration
+	// timer had already fired; the retry is kept so that the harness also runs on older trees)
 	var cs *ConsensusState
 	for try := 0; cs == nil && try < 50; try++ {
 		c03Guarded(func() { cs = NewConsensusState(logger, cfg, net.state.Copy(), nd.bo, be, c03Ev{}) })
